@@ -5,7 +5,8 @@
 EXTENDS Cleaner, TLC, Json
 
 CONSTANTS MaxRecs, MaxBatch, MaxOps, MaxEpoch, CapSet, KeySet, AgeSet, MsgsSet, BytesSet,
-          CompactSet, LagSet, BigSet, MaxCleans, MaxTicks, UseWindow, UseReopen, UseEpochs, UseReaders, OccSet
+          CompactSet, LagSet, BigSet, MaxCleans, MaxTicks, UseWindow, UseReopen, UseEpochs, UseReaders, OccSet,
+          MinCleanSegs   \* stimulus generation: cleans start only on logs with at least this many segments
 VARIABLES last, nRecs, nOps, nCleans, nTicks
 mcvars == <<cvars, last, nRecs, nOps, nCleans, nTicks>>
 
@@ -57,14 +58,43 @@ MCTick(d) ==
   /\ DoTick(d) /\ Step([a |-> "Tick", d |-> d])
   /\ nTicks' = nTicks + 1 /\ UNCHANGED <<nRecs, nCleans>>
 
+\* The situation a clean finds, as classes (for coverage-guided selection of the
+\* behaviours that are replayed; carried in `last`, ignored by the driver):
+\* n = segments, av = per non-last segment whether its last write is Older than /
+\* Equal to / Younger than the age cut-off, d1 = segments dropped by the age step,
+\* d = dropped by all limits, lim = which limits are configured, e = the active
+\* segment is empty, cnt = messages per segment, kv = per record what compaction
+\* makes of it: "T" newest segment, "H" at or above the HW, "N" no key, "L" latest
+\* committed of its key, "D" dominated (removable), "" when compaction is off
+CleanClass ==
+  LET n == Len(segs)
+      t == now - cc.age
+  IN [n   |-> n,
+      cnt |-> [k \in 1..n |-> SegCount(log, segs, k)],
+      kv  |-> IF cc.compact
+              THEN [i \in DOMAIN log |->
+                      IF log[i].off >= segs[n].base THEN "T"
+                      ELSE IF log[i].off >= hw THEN "H"
+                      ELSE IF log[i].key = "nil" THEN "N"
+                      ELSE IF log[i].off = LatestOff(log, hw, log[i].key) THEN "L" ELSE "D"]
+              ELSE <<>>,
+      av  |-> IF cc.age > 0
+              THEN [k \in 1..n - 1 |-> IF SegLwt(log, segs, k) < t THEN "O"
+                                       ELSE IF SegLwt(log, segs, k) = t THEN "E" ELSE "Y"]
+              ELSE <<>>,
+      d1  |-> IF cc.age > 0 THEN AgeDrop(log, segs, t) ELSE 0,
+      d   |-> RetainDrop(log, segs, cc, t),
+      lim |-> <<cc.age > 0, cc.msgs > 0, cc.bytes > 0>>,
+      e   |-> SegRecs(log, segs, n) = <<>>]
+
 MCClean ==
-  /\ nCleans < MaxCleans
-  /\ DoClean /\ Step([a |-> "Clean"])
+  /\ nCleans < MaxCleans /\ Len(segs) >= MinCleanSegs
+  /\ DoClean /\ Step([a |-> "Clean", cls |-> CleanClass])
   /\ nCleans' = nCleans + 1 /\ UNCHANGED <<nRecs, nTicks>>
 
 MCCleanBegin ==
-  /\ UseWindow /\ nCleans < MaxCleans
-  /\ DoCleanBegin /\ Step([a |-> "CleanBegin"])
+  /\ UseWindow /\ nCleans < MaxCleans /\ Len(segs) >= MinCleanSegs
+  /\ DoCleanBegin /\ Step([a |-> "CleanBegin", cls |-> CleanClass])
   /\ nCleans' = nCleans + 1 /\ UNCHANGED <<nRecs, nTicks>>
 
 MCCleanEnd == DoCleanEnd /\ Step([a |-> "CleanEnd"]) /\ UNCHANGED <<nRecs, nCleans, nTicks>>
